@@ -23,6 +23,9 @@ CLAIMED = {
  'C14': dict(technique='hypothesis folding of parameter-rejection obligations; structural (SSA) shape rule for the tag comparison; must-conjunct dataflow',
              text='Static: br_ccm_reset rejects every forbidden nonce/tag/length range before touching the block cipher; GCM/EAX/CCM verdicts are EQ0 of an OR-accumulated XOR between the buffer filled by get_tag and the caller tag over the full requested length. Does not decide tag/ciphertext values or streaming invariance.',
              note='Trusted: clang/opt 14, the shape recogniser in sa/checks/c14.py (exit 2 / violation if the loop no longer has that shape).'),
+ 'C19': dict(technique='abstract interpretation of the T0 handshake bytecode (value ranges of every fail argument), dominance rule for the closure site, hypothesis folding of renegotiate / close / I/O wrapper',
+             text='Static: no failure site of either handshake interpreter can carry error code 0 except the single orderly-closure site that follows a queued close_notify; renegotiation is declined without entering the handshake under each documented condition; close discards unread data before the closure handshake; the I/O wrapper maps transport errors to BR_ERR_IO and propagates failures. Does not decide stream ordering around closure/renegotiation.',
+             note='Trusted: sa/t0.py, sa/t0ai.py kernel-word models, clang/opt 14.'),
  'C20': dict(technique='hypothesis folding on the seeding gate, whole-program who-may-write scan of the seeded flag and sequence numbers, exactly-once path rule (dominance, loop membership) for seq increments',
              text='Static: no path starts a handshake or marks the DRBG seeded when seeding failed; system seeders fail closed; each of the 8 record encrypt/decrypt methods increments its 64-bit sequence number exactly once per record, every init zeroes it, nobody else writes it. Does not decide distinctness/reproducibility of random values.',
              note='Trusted: clang/opt 14, debug-info layouts, sa/wmw.py store scan over all 295 units of the build.'),
@@ -54,7 +57,7 @@ m = dict(
             source_commits=[], add_only=True),
  engines=[
   dict(name='IRF', path='tools/irdump.cc, sa/irf.py, sa/build.py', serves_properties=sorted(CLAIMED), kind_free_text='LLVM-IR facts (CFG, SSA, debug-info layouts) for every unit of the real build'),
-  dict(name='T0', path='sa/t0.py', serves_properties=['C03', 'C05'], kind_free_text='decoder + analyses for the T0 bytecode embedded in the generated interpreters'),
+  dict(name='T0', path='sa/t0.py', serves_properties=['C03', 'C05', 'C19'], kind_free_text='decoder + analyses for the T0 bytecode embedded in the generated interpreters'),
   dict(name='TAB', path='sa/tab.py', serves_properties=['C11', 'C12', 'C13'], kind_free_text='constants lifted from IR vs references generated from the standards'),
   dict(name='WMW', path='sa/wmw.py', serves_properties=['C06', 'C20'], kind_free_text='who-may-write / exactly-once structural rules over the whole program IR'),
   dict(name='FOLD', path='sa/fold.py, sa/oblig.py', serves_properties=['C02', 'C03', 'C05', 'C06', 'C10', 'C11', 'C14', 'C20'], kind_free_text='hypothesis folding with opt-14 as abstract interpreter; must-conjunct dataflow'),
